@@ -218,6 +218,25 @@ def write_corpus(outdir, seed, n):
     return out
 
 
+def is_ancient_dst(data):
+    """TZif data with a DST-rule footer whose recorded transitions all lie before 1568 (so that the
+    402 generated years end before 1970): the class of known finding C01/ancient-dst-zone."""
+    import struct
+    try:
+        if data[:4] != b"TZif" or data[4] == 0:
+            return False
+        c = struct.unpack(">6i", data[20:44])
+        o = 44 + c[3] * 5 + c[4] * 6 + c[5] + c[2] * 8 + c[1] + c[0]
+        c2 = struct.unpack(">6i", data[o + 20:o + 44])
+        o += 44
+        last = struct.unpack(">q", data[o + (c2[3] - 1) * 8:o + c2[3] * 8])[0] if c2[3] else -2 ** 59
+        end = o + c2[3] * 9 + c2[4] * 6 + c2[5] + c2[2] * 12 + c2[1] + c2[0]
+        footer = data[end + 1:].split(b"\n")[0]
+        return b"," in footer and last < -12686371200
+    except Exception:
+        return False
+
+
 def shipped_zones(repo="/repo"):
     root = os.path.join(repo, "testdata", "zoneinfo")
     out = []
